@@ -42,7 +42,7 @@ structure XSt where
   up : Bool := false
   vis : List (String × XV) := []
 
-def users : List String := ["ua", "ub", "uc"]
+def users : List String := ["ua", "ub", "uc", ""]   -- "" = a frpc that configured no user
 
 /-- the three frpc users are logged in; run ids are symbolic (= the user name) -/
 def srv0 : Visitor.State :=
